@@ -51,6 +51,51 @@ Comment: /\/\/[^\n]*|\/\*[^*]*\*\//;
 """
 
 
+# LAYOUT with a multi-token item: nested block comments are parsed by rules, so the
+# layout sub-parser (a second LR parser on the same grammar) can itself hit an error
+LAYOUT_NESTED = r"""
+LAYOUT: LayoutItem | LAYOUT LayoutItem | EMPTY;
+LayoutItem: WS | Comment;
+Comment: '/*' CorNCs '*/' | LineComment;
+CorNCs: CorNC | CorNCs CorNC | EMPTY;
+CorNC: Comment | NotComment | WS;
+"""
+LAYOUT_NESTED_TERMS = r"""WS: /\s+/;
+LineComment: /\/\/[^\n]*/;
+NotComment: /[a-z]+/;
+"""
+
+
+def is_nested_layout(s):
+    """Is s a string of the nested-comment layout language (whitespace, // line
+    comments, properly nested /* */ block comments that contain only lower-case
+    words, whitespace and comments - anything else inside a block comment is an
+    error of the LAYOUT sub-parser in the MIDDLE of the input)?"""
+    i, n, depth = 0, len(s), 0
+    while i < n:
+        if s.startswith("/*", i):
+            depth += 1
+            i += 2
+        elif depth and s.startswith("*/", i):
+            depth -= 1
+            i += 2
+        elif depth and s.startswith("//", i):
+            j = s.find("\n", i)
+            i = n if j < 0 else j
+        elif depth:
+            if not (s[i].isspace() or "a" <= s[i] <= "z"):
+                return False
+            i += 1
+        elif s[i].isspace():
+            i += 1
+        elif s.startswith("//", i):
+            j = s.find("\n", i)
+            i = n if j < 0 else j
+        else:
+            return False
+    return depth == 0
+
+
 class GModel:
     def __init__(self, rules, terms, layout="ws", keyword=None, imports=None):
         self.rules = rules
@@ -93,6 +138,8 @@ class GModel:
             out.append(f"{head}: " + "\n  | ".join(alts) + ";")
         if self.layout == "comments":
             out.append(LAYOUT_COMMENTS.strip())
+        elif self.layout == "nested":
+            out.append(LAYOUT_NESTED.strip())
         terms = []
         for t in self.terms.values():
             if t.inline:
@@ -109,6 +156,8 @@ class GModel:
             terms.append(f"KEYWORD: /{self.keyword}/;")
         if self.layout == "comments":
             terms.append(LAYOUT_TERMS.strip())
+        elif self.layout == "nested":
+            terms.append(LAYOUT_NESTED_TERMS.strip())
         if terms:
             out.append("terminals")
             out.extend(terms)
@@ -258,6 +307,9 @@ def layout_tokens(rng, toks, layout="ws", fancy=0.3):
             opts.append("")
         if layout == "comments":
             opts += [" // c\n", " /* c */ ", "/* x y */", "\n// k\n"]
+        elif layout == "nested":
+            opts += [" // c\n", " /* c */ ", "/* x /* y */ z */", "/* a b */", "\n// k\n",
+                     " /* /* */ */ "]
         return rng.choice(opts)
 
     if rng.random() < fancy:
@@ -272,6 +324,17 @@ def layout_tokens(rng, toks, layout="ws", fancy=0.3):
     if rng.random() < fancy:
         parts.append(filler(False))
     return "".join(parts)
+
+
+def damage_layout(rng, text):
+    """Corrupt the LAYOUT itself: a character that no comment may contain is put
+    inside a block comment (an error of the layout sub-parser in mid-input).
+    Returns the new text or None if there is no block comment."""
+    starts = [i for i in range(len(text) - 1) if text.startswith("/*", i)]
+    if not starts:
+        return None
+    i = rng.choice(starts) + 2
+    return text[:i] + rng.choice([" 7 ", "$", " + ", "9"]) + text[i:]
 
 
 JUNK = ["@", "#", "$$", "~", "?", "&", "!!", "`", "\\", "§"]
@@ -423,8 +486,9 @@ def fam_expr(rng):
     # become symbol names, hence end up in saved tables and error messages)
     ops = rng.sample(OPS_U + OPS[:2] if rng.random() < 0.25 else OPS, n)
     with_prio = rng.random() < 0.55
-    layout = "comments" if rng.random() < 0.3 else "ws"
-    if layout == "comments" and "/" not in ops and rng.random() < 0.6:
+    r_l = rng.random()
+    layout = "comments" if r_l < 0.3 else "nested" if r_l < 0.4 else "ws"
+    if layout != "ws" and "/" not in ops and rng.random() < 0.6:
         # an operator that is a prefix of the comment syntax (// and /* */): layout
         # skipping and token recognition compete at such positions
         ops[0] = "/"
@@ -511,7 +575,8 @@ def fam_stmt(rng):
     """Statement language: keywords vs identifiers (KEYWORD rule), repetition
     sugar with separators, optional, named matches (object results), dangling
     else (S/R conflict unless prefer_shifts), optional LAYOUT with comments."""
-    layout = "comments" if rng.random() < 0.5 else "ws"
+    r_l = rng.random()
+    layout = "comments" if r_l < 0.4 else "nested" if r_l < 0.55 else "ws"
     named = rng.random() < 0.6
     with_else = rng.random() < 0.7
     base = _stmt_model(rng, layout, with_else, named=named)
